@@ -45,6 +45,9 @@ KINDS = {
  'C_GenerateKeyPair':   dict(pre=pre_user, call=lambda x, e: x.call('C_GenerateKeyPair', s=e['s'], mech=x.M('CKM_EC_KEY_PAIR_GEN'), pub=x.T({'CKA_EC_PARAMS': keymat.OID['p256'], 'CKA_TOKEN': True, 'CKA_LABEL': b'NEWpub'}), priv=x.T({'CKA_TOKEN': True, 'CKA_PRIVATE': True, 'CKA_LABEL': b'NEWpriv', 'CKA_SENSITIVE': False, 'CKA_EXTRACTABLE': True})), written=['NEWpub', 'NEWpriv'], generated=True),
  'C_SetAttributeValue': dict(pre=lambda x, e: (pre_user(x, e), e.__setitem__('o', find1(x, e['s'], b'K1'))), call=lambda x, e: x.call('C_SetAttributeValue', s=e['s'], o=e['o'], tmpl=x.T({'CKA_ID': b'changed-id'})), written=['K1']),
  'C_SetAttributeValue(multi)': dict(pre=lambda x, e: (pre_user(x, e), e.__setitem__('o', find1(x, e['s'], b'K1'))), call=lambda x, e: x.call('C_SetAttributeValue', s=e['s'], o=e['o'], tmpl=x.T({'CKA_ID': b'changed-id', 'CKA_ENCRYPT': False, 'CKA_DECRYPT': False, 'CKA_SIGN': False, 'CKA_VERIFY': False, 'CKA_WRAP': False, 'CKA_DERIVE': False})), written=['K1']),
+ 'C_SetAttributeValue(big-object)': dict(pre=lambda x, e: (pre_user(x, e), e.__setitem__('o', find1(x, e['s'], b'G1'))), call=lambda x, e: x.call('C_SetAttributeValue', s=e['s'], o=e['o'], tmpl=x.T({'CKA_ID': b'changed-big'})), written=['G1']),
+ 'C_CreateObject(big-object)': dict(pre=pre_user, call=lambda x, e: x.call('C_CreateObject', s=e['s'], tmpl=x.T(dict(KT(x)['generic'], CKA_VALUE=bytes((i * 11 + 5) % 253 for i in range(6000)), CKA_TOKEN=True, CKA_PRIVATE=True, CKA_LABEL=b'NEW', CKA_ID=b'\x0a'))), written=['NEW']),
+ 'C_CopyObject(big-object)': dict(pre=lambda x, e: (pre_user(x, e), e.__setitem__('o', find1(x, e['s'], b'G1'))), call=lambda x, e: x.call('C_CopyObject', s=e['s'], o=e['o'], tmpl=x.T({'CKA_LABEL': b'NEW'})), written=['NEW']),
  'C_CopyObject':        dict(pre=lambda x, e: (pre_user(x, e), e.__setitem__('o', find1(x, e['s'], b'K1'))), call=lambda x, e: x.call('C_CopyObject', s=e['s'], o=e['o'], tmpl=x.T({'CKA_LABEL': b'NEW'})), written=['NEW']),
  'C_DestroyObject':     dict(pre=lambda x, e: (pre_user(x, e), e.__setitem__('o', find1(x, e['s'], b'K1'))), call=lambda x, e: x.call('C_DestroyObject', s=e['s'], o=e['o']), written=['K1']),
  'C_UnwrapKey':         dict(pre=lambda x, e: (pre_user(x, e), e.__setitem__('o', find1(x, e['s'], b'K1')), e.__setitem__('blob', x.call('C_WrapKey', s=e['s'], mech=x.M('CKM_AES_KEY_WRAP'), wkey=e['o'], key=find1(x, e['s'], b'K2'), buf=128)['out']['data'])),
@@ -69,6 +72,8 @@ def make_template(paths, ck, d, backend, big=False):
     val = (b'public-data-' * (6000 if big else 3))
     assert x.call('C_CreateObject', s=s, tmpl=x.T(dict(T['data'], CKA_TOKEN=True, CKA_PRIVATE=False, CKA_LABEL=b'D1', CKA_VALUE=val)))['rv'] == 0
     assert x.call('C_CreateObject', s=s, tmpl=x.T(dict(T['ec_priv'], CKA_TOKEN=True, CKA_PRIVATE=True, CKA_LABEL=b'E1')))['rv'] == 0
+    # an object whose file is larger than a stdio buffer: its flush is several write() calls, a crash inside it cuts the file in the middle of a value
+    assert x.call('C_CreateObject', s=s, tmpl=x.T(dict(T['generic'], CKA_VALUE=bytes((i * 7 + 3) % 251 for i in range(6000)), CKA_TOKEN=True, CKA_PRIVATE=True, CKA_LABEL=b'G1', CKA_ID=b'id-big')))['rv'] == 0
     x.call('C_Finalize'); x.close()
     for f in os.listdir(d):
         if f.startswith(('stderr', 'trace')): os.unlink(os.path.join(d, f))
@@ -235,7 +240,7 @@ def run(ctx):
             S0 = probe(ctx.paths, ck, tdir)
             for f in os.listdir(tdir):
                 if f.startswith(('stderr', 'trace')): os.unlink(os.path.join(tdir, f))
-            if 'tokA' not in S0['tokens'] or len(S0['tokens']['tokA']['objects']) != 4: raise AssertionError('template probe unexpected: %r' % S0)
+            if 'tokA' not in S0['tokens'] or len(S0['tokens']['tokA']['objects']) != 5: raise AssertionError('template probe unexpected: %r' % S0)
             for kind in kinds:
                 if big and kind not in ('C_SetAttributeValue', 'C_SetAttributeValue(multi)', 'C_CopyObject', 'C_DestroyObject', 'C_Login(right-pin)'): continue
                 if ctx.quick and backend == 'db' and kind not in QUICK_DB: continue
